@@ -104,7 +104,10 @@ def run(ctx):
     r = lev.ret()
     alts = r[1] if r[0] == "phi" else (r,)
     oks = [a for a in alts if a[0] == "agg" and str(a[1]).endswith("Result::Ok")]
-    okseed = bool(oks) and all(is_call(a[2][0]) and (a[2][0][1].endswith("::seed") or "decrypt_seed" in fmt(a[2][0])) for a in oks)
+    def seed_src(x):
+        x = values.strip_payload(x)
+        return is_call(x) and (x[1].endswith("::seed") or x[1].endswith("EnvelopeEncryption::decrypt_seed"))
+    okseed = bool(oks) and all(seed_src(a[2][0]) for a in oks)
     ctx.check("one-identity", "load_seed-returns-config-seed", okseed, "load_seed returns config.seed() (or its KMS decryption)", "load_seed returns %s" % [fmt(a) for a in oks], ctx.loc(ls))
     # Responder public key string is that key's public key
     cs = W.ctor_fields(sm.RESPONDER)
